@@ -1617,3 +1617,119 @@ func c07HasCommentCoversTokens(c *Ctx, pk, pa *packages.Package, nodeIface *type
 		c.Fail(rule, "anchor", token.NoPos, "no has-comment method over the members of a node found")
 	}
 }
+
+// ---- C06 (after round-6 seeds C06-p, C06-r) ------------------------------------------------------------------------
+
+// c06AnnotationJudgedAlone (ANNOTATION-JUDGED-ALONE): rule selection and suppression "compose set-theoretically": whether
+// an annotation is suppressed depends on that annotation (its rule, its locations) and on the configuration - not on
+// which annotations were looked at before it. The predicate that filters annotations keeps no memory: the function
+// literal handed to the filter, and what it calls in the package, write no variable or map captured from outside.
+func c06AnnotationJudgedAlone(c *Ctx, pk *packages.Package) {
+	const rule = "ANNOTATION-JUDGED-ALONE"
+	c.Rule(rule, "the annotation filter decides each annotation on its own: its predicate keeps no state", 1)
+	p := c.P
+	n := 0
+	for _, sf := range p.SSAFuncsOf([]*packages.Package{pk}) {
+		for _, call := range callsIn(sf) {
+			o := staticCalleeObj(call.Call)
+			if o == nil || !strings.HasPrefix(o.Name(), "Filter") || len(call.Call.Args) != 2 {
+				continue
+			}
+			sl, ok := call.Call.Args[0].Type().Underlying().(*types.Slice)
+			if !ok || !strings.HasSuffix(namedPath(derefType(sl.Elem())), "bufcheck.annotation") {
+				continue
+			}
+			var pred *ssa.Function
+			switch t := call.Call.Args[1].(type) {
+			case *ssa.MakeClosure:
+				pred, _ = t.Fn.(*ssa.Function)
+			case *ssa.Function:
+				pred = t
+			}
+			if pred == nil {
+				continue
+			}
+			n++
+			var writes []string
+			for _, b := range pred.Blocks {
+				for _, ins := range b.Instrs {
+					switch t := ins.(type) {
+					case *ssa.Store:
+						if _, ok := t.Addr.(*ssa.FreeVar); ok {
+							writes = append(writes, "store into captured "+t.Addr.Name())
+						}
+					case *ssa.MapUpdate:
+						m := stripConv(t.Map)
+						if u, ok := m.(*ssa.UnOp); ok {
+							m = u.X
+						}
+						if _, ok := m.(*ssa.FreeVar); ok {
+							writes = append(writes, "map store into captured "+m.Name())
+						}
+					}
+				}
+			}
+			c.Ob(rule, ssaFuncName(sf)+"/predicate", call.Pos(), len(writes) == 0, true, "the predicate writes nothing it captured (%v)", uniq(writes))
+		}
+	}
+	if n == 0 {
+		c.Fail(rule, "anchor", token.NoPos, "no filter over annotations with a function literal found")
+	}
+}
+
+// c06UndeprecateUngated (UNDEPRECATE-UNGATED): deprecated rule IDs reach the configuration written out (`use:
+// [FIELD_SAME_LABEL]`) or through a category whose members include a deprecated rule; either way they are replaced by
+// their successors before rules are selected. The replacement passes run whenever the rules configuration is built -
+// they are not skipped because no deprecated ID was *written out*.
+func c06UndeprecateUngated(c *Ctx, pk *packages.Package) {
+	const rule = "UNDEPRECATE-UNGATED"
+	c.Rule(rule, "the replace-deprecated-IDs passes of the rules configuration run unconditionally", 2)
+	p := c.P
+	n := 0
+	for _, sf := range p.SSAFuncsOf([]*packages.Package{pk}) {
+		k := 0
+		for _, call := range callsIn(sf) {
+			callee := call.Call.StaticCallee()
+			if callee == nil || callee.Pkg != sf.Pkg || !strings.HasSuffix(callee.Name(), "ToUndeprecated") {
+				continue
+			}
+			n++
+			k++
+			// conditions the pass is subject to and the function's normal completion is not: the early exits every
+			// later step shares (no rules of this type at all, errors) are not gates of this pass
+			shared := map[*ssa.If]bool{}
+			for _, r := range returnsOf(sf) {
+				ok := len(r.Results) > 0
+				for _, res := range r.Results {
+					if isErrorType(res.Type()) && !isNilConst(spilledResult(r, res)) {
+						ok = false
+					}
+				}
+				if ok && call.Instr.Block().Dominates(r.Block()) {
+					for _, ge := range guardingEdges(r.Block()) {
+						shared[ge.If] = true
+					}
+				}
+			}
+			var gates []string
+			for _, ge := range guardingEdges(call.Instr.Block()) {
+				if shared[ge.If] {
+					continue
+				}
+				cv, _ := condPolarity(ge.If.Cond)
+				if x, _, isNil := nilCompare(cv); isNil && isErrorType(x.Type()) {
+					continue
+				}
+				at := ge.If.Cond.Pos()
+				for q := len(ge.If.Block().Instrs) - 1; q >= 0 && at == token.NoPos; q-- {
+					at = ge.If.Block().Instrs[q].Pos()
+				}
+				gates = append(gates, p.Pos(at))
+			}
+			c.Ob(rule, fmt.Sprintf("%s/%s#%d", ssaFuncName(sf), callee.Name(), k), call.Pos(), len(gates) == 0, true, "%s is reached whenever the configuration is built (conditions on the way other than error checks: %v)", callee.Name(), gates)
+		}
+	}
+	if n == 0 {
+		c.Fail(rule, "anchor", token.NoPos, "no …ToUndeprecated pass found")
+	}
+}
